@@ -106,6 +106,12 @@ package auparse
 //@ func (auparse.fieldMap).execveArgs
 //@ requires fm != nil
 //@ modifies mapOf(fm), alloc
+// EXECVE: argc is a decimal count and every argument a0..a(argc-1) must be present; no key is added or removed.
+//@ ensures[C12] !old("argc" in fm) ==> !isNil(result0)
+//@ ensures[C12] forall k string :: (k in fm) == old(k in fm)
+//@ ensures[C12] isNil(result0) ==> strIsNum(old(fm["argc"].value), 10, false) && (forall j int :: 0 <= j && j < strUval(old(fm["argc"].value), 10) ==> ("a" ++ strDec(j)) in fm)
+//@ ensures[C12] old("argc" in fm) && strIsNum(old(fm["argc"].value), 10, false) && 0 <= strUval(old(fm["argc"].value), 10) && strUval(old(fm["argc"].value), 10) < 4294967296 && (forall j int :: 0 <= j && j < strUval(old(fm["argc"].value), 10) ==> old(("a" ++ strDec(j)) in fm)) ==> isNil(result0)
+//@ loop 0 invariant[C12] 0 <= i && i <= count && (forall k string :: (k in fm) == old(k in fm)) && (forall j int :: 0 <= j && j < i ==> ("a" ++ strDec(j)) in fm)
 //@ func (auparse.fieldMap).arch
 //@ requires fm != nil
 //@ modifies mapOf(fm), alloc
